@@ -69,7 +69,7 @@ Owes ==
          /\ owed' = IF out'.flushed THEN [doc |-> (IF cache.wfail THEN Nil ELSE cache'.doc), ok |-> ~cache.wfail] ELSE owed
     [] out'.ev = "lookupend" ->
          /\ rets' = rets \cup {<<"lookup", k, (IF out'.res = "val" THEN "ok" ELSE "err")>> : k \in out'.returned}
-         /\ owed' = IF out'.res = "val" /\ cache.kind # "none" THEN [doc |-> (IF cache.wfail THEN Nil ELSE cache'.doc), ok |-> ~cache.wfail] ELSE owed
+         /\ owed' = IF out'.res = "val" /\ out'.installed /\ cache.kind # "none" THEN [doc |-> (IF cache.wfail THEN Nil ELSE cache'.doc), ok |-> ~cache.wfail] ELSE owed
     [] out'.ev = "ret" /\ out'.call = "refresh" ->
          /\ rets' = rets \cup {<<"refresh", out'.caller, out'.res>>} /\ UNCHANGED owed
     [] out'.ev = "ret" /\ out'.call = "lookup" ->
